@@ -29,15 +29,18 @@ func (s Sort) String() string {
 }
 
 type Term struct {
-	id   int
-	op   string // const var app + * div mod ite = < <= and or not
-	args []*Term
-	k    *big.Int // const value (Int) or 0/1 (Bool); coefficient for "*" (k * args[0])
-	name string   // var / app name
-	sort Sort
-	lo   *big.Int // inclusive bounds, nil = unbounded
-	hi   *big.Int
-	decl bool // leaf (var/app) whose bounds are axioms to be asserted
+	id    int
+	op    string // const var app + * div mod ite = < <= and or not
+	args  []*Term
+	k     *big.Int // const value (Int) or 0/1 (Bool); coefficient for "*" (k * args[0])
+	name  string   // var / app name
+	sort  Sort
+	lo    *big.Int // inclusive bounds, nil = unbounded
+	hi    *big.Int
+	decl  bool    // leaf (var/app) whose bounds are axioms to be asserted
+	bound bool    // bound variable of a quantifier
+	bvars []*Term // op "forall": the bound variables
+	hasBV int8    // 0 unknown, 1 no, 2 yes: contains a bound variable
 }
 
 type TermStore struct {
@@ -178,6 +181,190 @@ func App(f *FuncDecl, lo, hi *big.Int, args ...*Term) *Term {
 		panic("App arity " + f.name)
 	}
 	return TS.intern(&Term{op: "app", name: f.name, args: args, sort: f.ret, lo: lo, hi: hi, decl: lo != nil || hi != nil})
+}
+
+// BoundVar makes a fresh variable meant to be bound by Forall.
+func BoundVar(hint string, lo, hi *big.Int) *Term {
+	TS.fresh++
+	v := Var(fmt.Sprintf("qv!%s!%d", sanitize(hint), TS.fresh), SInt, lo, hi)
+	v.bound = true
+	v.decl = false
+	return v
+}
+
+// containsBound: t mentions a bound variable.
+func containsBound(t *Term) bool {
+	if t.hasBV != 0 {
+		return t.hasBV == 2
+	}
+	r := t.bound
+	if !r {
+		for _, a := range t.args {
+			if containsBound(a) {
+				r = true
+				break
+			}
+		}
+	}
+	if r {
+		t.hasBV = 2
+	} else {
+		t.hasBV = 1
+	}
+	return r
+}
+
+func collectBound(t *Term, seen map[int]bool, out *[]*Term) {
+	if seen[t.id] || !containsBound(t) {
+		return
+	}
+	seen[t.id] = true
+	if t.bound {
+		*out = append(*out, t)
+	}
+	for _, a := range t.args {
+		collectBound(a, seen, out)
+	}
+}
+
+// substTerm replaces every occurrence of `from` in t by `to`, rebuilding through the
+// simplifying constructors.
+func substTerm(t, from, to *Term, memo map[int]*Term) *Term {
+	if t == from {
+		return to
+	}
+	if len(t.args) == 0 || !containsBound(t) {
+		return t
+	}
+	if r, ok := memo[t.id]; ok {
+		return r
+	}
+	as := make([]*Term, len(t.args))
+	for i, a := range t.args {
+		as[i] = substTerm(a, from, to, memo)
+	}
+	var r *Term
+	switch t.op {
+	case "app":
+		r = App(TS.funcs[t.name], t.lo, t.hi, as...)
+	case "+":
+		r = Add(as...)
+	case "*":
+		r = MulC(t.k, as[0])
+	case "mul":
+		r = Mul(as[0], as[1])
+	case "div":
+		r = EDiv(as[0], as[1])
+	case "mod":
+		r = EMod(as[0], as[1])
+	case "ite":
+		r = Ite(as[0], as[1], as[2])
+	case "=":
+		r = Eq(as[0], as[1])
+	case "<":
+		r = Lt(as[0], as[1])
+	case "<=":
+		r = Le(as[0], as[1])
+	case "and":
+		r = And(as...)
+	case "or":
+		r = Or(as...)
+	case "not":
+		r = Not(as[0])
+	default:
+		panic("substTerm: op " + t.op)
+	}
+	memo[t.id] = r
+	return r
+}
+
+// triggerShift looks for an application f(..., v + rest, ...) in t and returns rest:
+// re-indexing the quantifier by v' = v + rest makes the trigger free of arithmetic.
+func triggerShift(t, v *Term, seen map[int]bool) *Term {
+	if seen[t.id] || !containsBound(t) {
+		return nil
+	}
+	seen[t.id] = true
+	if t.op == "app" {
+		for _, a := range t.args {
+			if a.op == "+" {
+				hasV := false
+				var rest []*Term
+				for _, x := range a.args {
+					if x == v {
+						hasV = true
+					} else {
+						rest = append(rest, x)
+					}
+				}
+				if hasV {
+					r := Add(rest...)
+					if !containsBound(r) {
+						return r
+					}
+				}
+			}
+		}
+	}
+	for _, a := range t.args {
+		if r := triggerShift(a, v, seen); r != nil {
+			return r
+		}
+	}
+	return nil
+}
+
+// Forall closes body over the bound variables it mentions (type ranges of the
+// variables become guards).
+func Forall(body *Term) *Term {
+	var bv []*Term
+	collectBound(body, map[int]bool{}, &bv)
+	if len(bv) == 0 {
+		return body
+	}
+	// re-index so that heap reads under the quantifier are f(ref, v') with v' bound
+	for i, v := range bv {
+		if rest := triggerShift(body, v, map[int]bool{}); rest != nil {
+			nv := BoundVar("j", nil, nil)
+			var g []*Term
+			shifted := Sub(nv, rest)
+			if v.lo != nil {
+				g = append(g, Le(IntB(v.lo), shifted))
+			}
+			if v.hi != nil {
+				g = append(g, Le(shifted, IntB(v.hi)))
+			}
+			body = substTerm(body, v, shifted, map[int]*Term{})
+			if len(g) > 0 {
+				body = Implies(And(g...), body)
+			}
+			bv[i] = nv
+		}
+	}
+	bv = nil
+	collectBound(body, map[int]bool{}, &bv)
+	if len(bv) == 0 {
+		return body
+	}
+	var guards []*Term
+	for _, v := range bv {
+		if v.lo != nil {
+			guards = append(guards, TS.intern(&Term{op: "<=", args: []*Term{IntB(v.lo), v}, sort: SBool}))
+		}
+		if v.hi != nil {
+			guards = append(guards, TS.intern(&Term{op: "<=", args: []*Term{v, IntB(v.hi)}, sort: SBool}))
+		}
+	}
+	if len(guards) > 0 {
+		body = Implies(And(guards...), body)
+	}
+	t := &Term{op: "forall", args: []*Term{body}, sort: SBool, bvars: bv}
+	for _, v := range bv {
+		t.name += fmt.Sprintf(",%d", v.id)
+	}
+	r := TS.intern(t)
+	r.hasBV = 1
+	return r
 }
 
 // ---------- linear arithmetic normal form ----------
@@ -529,6 +716,22 @@ func Or(ts ...*Term) *Term {
 			return True()
 		}
 	}
+	// (A and c) or (A and not c)  ==  A
+	if len(args) >= 2 && len(args) <= 8 {
+		for i := 0; i < len(args); i++ {
+			for j := i + 1; j < len(args); j++ {
+				if m := mergeComplement(args[i], args[j]); m != nil {
+					rest := []*Term{m}
+					for k, a := range args {
+						if k != i && k != j {
+							rest = append(rest, a)
+						}
+					}
+					return Or(rest...)
+				}
+			}
+		}
+	}
 	if len(args) == 0 {
 		return False()
 	}
@@ -539,6 +742,43 @@ func Or(ts ...*Term) *Term {
 }
 
 func Implies(a, b *Term) *Term { return Or(Not(a), b) }
+
+func conjuncts(t *Term) []*Term {
+	if t.op == "and" {
+		return t.args
+	}
+	return []*Term{t}
+}
+
+// mergeComplement: x = A∧c, y = A∧¬c  →  A  (nil if not of that shape)
+func mergeComplement(x, y *Term) *Term {
+	cx, cy := conjuncts(x), conjuncts(y)
+	if len(cx) != len(cy) {
+		return nil
+	}
+	inY := map[int]bool{}
+	for _, t := range cy {
+		inY[t.id] = true
+	}
+	var onlyX *Term
+	var common []*Term
+	for _, t := range cx {
+		if inY[t.id] {
+			common = append(common, t)
+		} else if onlyX == nil {
+			onlyX = t
+		} else {
+			return nil
+		}
+	}
+	if onlyX == nil {
+		return nil
+	}
+	if !inY[Not(onlyX).id] {
+		return nil
+	}
+	return And(common...)
+}
 
 func Ite(c, a, b *Term) *Term {
 	if c.IsTrue() {
@@ -921,9 +1161,42 @@ func BitXor(x, y *Term, bits uint) *Term {
 
 // ---------- printing ----------
 
-func (t *Term) String() string {
+func (t *Term) String() string { return t.StringLimit(4000) }
+
+// StringLimit prints at most about n characters (terms are DAGs; a full print can
+// be exponentially long).
+func (t *Term) StringLimit(n int) string {
 	var sb strings.Builder
-	t.write(&sb, nil)
+	var w func(t *Term) bool
+	w = func(t *Term) bool {
+		if sb.Len() > n {
+			return false
+		}
+		if len(t.args) == 0 {
+			t.write(&sb, nil)
+			return true
+		}
+		op := t.op
+		switch op {
+		case "app":
+			op = t.name
+		case "*":
+			op = "* " + smtInt(t.k)
+		case "mul":
+			op = "*"
+		}
+		sb.WriteString("(" + op)
+		for _, a := range t.args {
+			sb.WriteByte(' ')
+			if !w(a) {
+				sb.WriteString("…")
+				return false
+			}
+		}
+		sb.WriteByte(')')
+		return true
+	}
+	w(t)
 	return sb.String()
 }
 
@@ -968,6 +1241,14 @@ func (t *Term) write(sb *strings.Builder, named map[int]string) {
 		sb.WriteByte(')')
 	case "*":
 		sb.WriteString("(* " + smtInt(t.k) + " ")
+		t.args[0].write(sb, named)
+		sb.WriteByte(')')
+	case "forall":
+		sb.WriteString("(forall (")
+		for _, v := range t.bvars {
+			sb.WriteString("(" + v.name + " Int)")
+		}
+		sb.WriteString(") ")
 		t.args[0].write(sb, named)
 		sb.WriteByte(')')
 	default:
@@ -1022,7 +1303,7 @@ func RenderQuery(asserts []*Term, values []*Term, quantAxioms []string, logic st
 	for _, t := range order {
 		switch t.op {
 		case "var":
-			if !declared[t.name] {
+			if !declared[t.name] && !t.bound {
 				declared[t.name] = true
 				fmt.Fprintf(&sb, "(declare-fun %s () %s)\n", t.name, t.sort)
 			}
@@ -1047,6 +1328,9 @@ func RenderQuery(asserts []*Term, values []*Term, quantAxioms []string, logic st
 	}
 	named := map[int]string{}
 	for _, t := range order {
+		if containsBound(t) {
+			continue // lives under a quantifier: printed inline there
+		}
 		if len(t.args) == 0 {
 			if t.decl {
 				writeBounds(&sb, t, named)
